@@ -10,9 +10,18 @@ the input buffer for the next read (`parse_stall`).
 namespace Fcgi.E2E
 open Fcgi Fcgi.Req Fcgi.Str Fcgi.Async Fcgi.Run
 
+/-- Nothing more can be parsed without new input: the unparsed bytes are used up, or what is left is
+an incomplete record header. -/
+def Drained (p : Str.Parser) : Prop := p.raw = [] ∨ (p.pay = 0 ∧ p.pad = 0 ∧ p.raw.length < 8)
+
+theorem Drained.short {p : Str.Parser} (h : Drained p) : p.raw.length < 8 := by
+  rcases h with h | ⟨_, _, h⟩
+  · rw [h]; simp
+  · exact h
+
 /-- Where the loop may stop. -/
 def Shape (dest : Option Nat) (res : Status) (p' : Str.Parser) (r' : Status) : Prop :=
-  p'.raw.length < 8 ∨ (∃ v, p'.state = .values v ∧ p'.raw.length < p'.pay) ∨ r'.streamEnd = true ∨
+  Drained p' ∨ (∃ v, p'.state = .values v ∧ p'.raw.length < p'.pay) ∨ r'.streamEnd = true ∨
   (dest.isSome = true ∧ r'.delivered.length = res.delivered.length + dest.getD 0)
 
 def ShapeI (dest : Option Nat) (res : Status) : Iter → Prop
@@ -43,8 +52,8 @@ theorem raw_short {raw : Bytes}
   | [_, _, _, _, _, _, _] => simp
   | b0 :: b1 :: b2 :: b3 :: b4 :: b5 :: b6 :: b7 :: rest => exact (h _ _ _ _ _ _ _ _ _ rfl).elim
 
-theorem parseHead_shape (p : Str.Parser) (dest : Option Nat) (res : Status) :
-    ShapeI dest res (parseHead p dest res) := by
+theorem parseHead_shape (p : Str.Parser) (dest : Option Nat) (res : Status) (hpay : p.pay = 0)
+    (hpad : p.pad = 0) : ShapeI dest res (parseHead p dest res) := by
   cases hh : parseHead p dest res with
   | stop p' r' =>
     simp only [ShapeI]
@@ -58,7 +67,8 @@ theorem parseHead_shape (p : Str.Parser) (dest : Option Nat) (res : Status) :
         | (cases hh; exact Or.inr (Or.inr (Or.inl rfl)))
     · rename_i hne
       cases hh
-      exact Or.inl (raw_short (fun b0 b1 b2 b3 b4 b5 b6 b7 rest hr => hne _ _ _ _ _ _ _ _ _ hr))
+      exact Or.inl (Or.inr ⟨hpay, hpad,
+        raw_short (fun b0 b1 b2 b3 b4 b5 b6 b7 rest hr => hne _ _ _ _ _ _ _ _ _ hr)⟩)
   | _ => trivial
 
 theorem parsePayload_shape (p : Str.Parser) (dest : Option Nat) (res : Status) :
@@ -83,9 +93,9 @@ theorem parsePayload_shape (p : Str.Parser) (dest : Option Nat) (res : Status) :
             · refine Or.inr (Or.inr (Or.inr ⟨rfl, ?_⟩))
               simp only [List.length_append, List.length_take, Option.getD_some]
               omega
-            · refine Or.inl ?_
-              simp only [List.length_drop]
-              omega
+            · refine Or.inl (Or.inl ?_)
+              show List.drop _ p.raw = []
+              exact List.drop_eq_nil_of_le (by omega)
       | none =>
         simp only [hst] at hh
         split at hh
@@ -95,9 +105,9 @@ theorem parsePayload_shape (p : Str.Parser) (dest : Option Nat) (res : Status) :
           · rename_i hc
             cases hh
             simp only [Bool.and_eq_true, beq_iff_eq, decide_eq_true_eq, not_and, Nat.not_lt] at hc
-            refine Or.inl ?_
-            simp only [List.length_drop]
-            omega
+            refine Or.inl (Or.inl ?_)
+            show List.drop _ p.raw = []
+            exact List.drop_eq_nil_of_le (by omega)
     | skip =>
       simp only [hst] at hh
       split at hh
@@ -107,9 +117,9 @@ theorem parsePayload_shape (p : Str.Parser) (dest : Option Nat) (res : Status) :
         · rename_i hc
           cases hh
           simp only [Bool.and_eq_true, beq_iff_eq, decide_eq_true_eq, not_and, Nat.not_lt] at hc
-          refine Or.inl ?_
-          simp only [List.length_drop]
-          omega
+          refine Or.inl (Or.inl ?_)
+          show List.drop _ p.raw = []
+          exact List.drop_eq_nil_of_le (by omega)
     | values v =>
       have hrest := nvall_rest_le (List.take (min p.pay p.raw.length) p.raw)
       simp only [List.length_take] at hrest
@@ -132,12 +142,12 @@ theorem parsePayload_shape (p : Str.Parser) (dest : Option Nat) (res : Status) :
           · rename_i hc
             cases hh
             simp only [Bool.and_eq_true, beq_iff_eq, decide_eq_true_eq, not_and, Nat.not_lt] at hc
-            refine Or.inl ?_
-            simp only [List.length_drop]
-            omega
+            refine Or.inl (Or.inl ?_)
+            show List.drop _ p.raw = []
+            exact List.drop_eq_nil_of_le (by omega)
   | _ => trivial
 
-theorem padHead_shape (q : Str.Parser) (d : Option Nat) (r : Status) :
+theorem padHead_shape (q : Str.Parser) (d : Option Nat) (r : Status) (hpay : q.pay = 0) :
     ShapeI d r
       (if q.pad > 0 then
         if q.raw.length ≤ q.pad then
@@ -146,9 +156,10 @@ theorem padHead_shape (q : Str.Parser) (d : Option Nat) (r : Status) :
       else parseHead q d r) := by
   split
   · split
-    · exact Or.inl (by simp)
-    · exact parseHead_shape _ _ _
-  · exact parseHead_shape _ _ _
+    · exact Or.inl (Or.inl rfl)
+    · exact parseHead_shape _ _ _ hpay rfl
+  · rename_i hpad
+    exact parseHead_shape _ _ _ hpay (by omega)
 
 theorem iter_shape (p : Str.Parser) (dest : Option Nat) (res : Status) :
     ShapeI dest res (iter p dest res) := by
@@ -160,12 +171,12 @@ theorem iter_shape (p : Str.Parser) (dest : Option Nat) (res : Status) :
     cases hpp : parsePayload p dest res with
     | cont q d r =>
       rw [hpp] at hp
-      exact ShapeI.trans hp.1 (padHead_shape q d r)
+      exact ShapeI.trans hp.1 (padHead_shape q d r hp.2.2.1)
     | stop q r => rw [hpp] at hs; exact hs
     | err q e => trivial
     | panic s => trivial
   · simp only [hpay, if_false]
-    exact padHead_shape p dest res
+    exact padHead_shape p dest res (by omega)
 
 theorem loop_shape (p : Str.Parser) (dest : Option Nat) (res : Status) {p' : Str.Parser} {st : Status}
     (h : loop p dest res = (p', .ok st)) : Shape dest res p' st := by
@@ -177,7 +188,7 @@ theorem loop_shape (p : Str.Parser) (dest : Option Nat) (res : Status) {p' : Str
     · rename_i he
       have hr : p.raw = [] := by simpa using he
       cases h
-      exact Or.inl (by simp [hr])
+      exact Or.inl (Or.inl hr)
     · have hi := iter_good p dest res
       have hs := iter_shape p dest res
       cases hit : iter p dest res with
@@ -197,8 +208,8 @@ theorem loop_shape (p : Str.Parser) (dest : Option Nat) (res : Status) {p' : Str
 stops with fewer than 8 unparsed bytes or on an incomplete `GetValues` pair. -/
 theorem parse_stall {p p' : Str.Parser} {new : Bytes} {n : Nat} {st : Status} (hcap : p.freeStart ≤ p.cap)
     (hpar : p.parsed = []) (hfree : new.length ≤ p.free) (hn : 0 < n)
-    (h : p.parse new (some n) = (p', .ok st)) (hse : st.streamEnd = false) (hz : st.stream = 0) :
-    p'.raw.length < 8 ∨ ∃ v, p'.state = .values v ∧ p'.raw.length < p'.pay := by
+    (h : p.parse new (some n) = (p', .ok st)) (hse : st.streamEnd = false) (hz : st.stream < n) :
+    Drained p' ∨ ∃ v, p'.state = .values v ∧ p'.raw.length < p'.pay := by
   have hc := (C03S.counts_exact hcap (Or.inr hpar) hfree h).2.2.1 n rfl
   rw [parse_eq_loop p new (some n) hcap (Or.inr hpar) hfree] at h
   rcases loop_shape _ _ _ h with h1 | h1 | h1 | ⟨_, h2⟩
@@ -229,16 +240,48 @@ theorem Sim.no_values {E : Str.Env} {p : Str.Parser} {fut remC : Bytes} (h : Sim
     omega
   · exact responseRecord_ne _ _ h1
 
+/-- What is fixed while a request's input is read: the simulation data, the request, the buffer size. -/
+structure RCtx where
+  E : Str.Env
+  rq : Request
+  cap : Nat
+
 /-- Read-side state of the `Request` while the handler reads a quiet stream: the simulation
 invariant with nothing owed, nothing queued, nothing buffered, no lock held. -/
-structure RInv (E : Str.Env) (r : AReq) (fut remC : Bytes) : Prop where
-  sim : Sim E r.sp fut remC []
+structure RInv (K : RCtx) (r : AReq) (fut remC : Bytes) : Prop where
+  sim : Sim K.E r.sp fut remC []
   sinv : SInv r.sp
+  req : r.sp.request = K.rq
+  capK : r.sp.cap = K.cap
   cap8 : 8 ≤ r.sp.cap
   out : r.sp.output = []
   par : r.sp.parsed = []
   lock : r.lock = .none
   wr : r.writeable = true
+
+theorem Body.len {id s : Nat} {ct : Bytes} {rs : List Spec.Rec} (h : Body id s ct rs) :
+    ct.length ≤ (Spec.serAll rs).length := by
+  induction h with
+  | nil => simp
+  | noise r _ _ ih => rw [serAll_cons]; simp only [List.length_append]; omega
+  | chunk c pad res _ _ _ ih =>
+    rw [serAll_cons]
+    simp only [List.length_append, ser_length]
+    omega
+
+/-- the content still to be delivered sits in the unparsed buffer and the bytes still to be read -/
+theorem RInv.remC_le {K : RCtx} {r : AReq} {fut remC : Bytes} (h : RInv K r fut remC) :
+    remC.length ≤ K.cap + fut.length := by
+  obtain ⟨c, pd, rs, ct, hb, _, _, hw, hrc, _⟩ := h.sim.core
+  have h1 := congrArg List.length hw
+  have h2 := Body.len hb
+  have h3 : (stateC r.sp.state c).length ≤ c.length := by
+    unfold stateC; split <;> simp
+  have h4 := h.sinv.1
+  have h5 := h.capK
+  rw [hrc]
+  simp only [List.length_append, Str.Parser.freeStart] at *
+  omega
 
 theorem pollOutput_quiet {r : AReq} (ho : r.sp.output = []) (hl : r.lock = .none) (m : MutexSt)
     (t : Transport) : r.pollOutput m t = (r, m, t, .ready) := by
@@ -250,13 +293,14 @@ theorem EndMark.len {id role s : Nat} {tail : Bytes} (h : EndMark id role s tail
   omega
 
 /-- One `parse` call of the read loop. -/
-theorem parse_rinv {E : Str.Env} {r : AReq} {new fut remC : Bytes} {n : Nat} (hn : 0 < n)
-    (hi : RInv E r (new ++ fut) remC) (hfree : new.length ≤ r.sp.free) :
+theorem parse_rinv {K : RCtx} {r : AReq} {new fut remC : Bytes} {n : Nat} (hn : 0 < n)
+    (hi : RInv K r (new ++ fut) remC) (hfree : new.length ≤ r.sp.free) :
     ∃ p' st remC', r.sp.parse new (some n) = (p', .ok st) ∧ st.delivered ++ remC' = remC ∧
       st.stream = st.delivered.length ∧
-      RInv E { r with sp := p' } fut remC' ∧
-      (st.streamEnd = true → remC' = [] ∧ p'.pay = 0 ∧ p'.pad = 0 ∧ p'.raw ++ fut = E.tail) ∧
-      (st.streamEnd = false → st.stream = 0 → p'.raw.length < 8 ∧ fut ≠ []) := by
+      RInv K { r with sp := p' } fut remC' ∧
+      (st.streamEnd = true → remC' = [] ∧ p'.pay = 0 ∧ p'.pad = 0 ∧ p'.raw ++ fut = K.E.tail) ∧
+      (st.streamEnd = false → st.stream = 0 → p'.raw.length < 8 ∧ fut ≠ []) ∧
+      (st.streamEnd = false → st.stream < n → Drained p') := by
   obtain ⟨p', st, remC', remO', hp, hs', hdel, hgr, hse, hlive⟩ :=
     parse_sim (dest := some n) hi.sim hi.sinv.1 (Or.inr hi.par) hfree
   have hro : remO' = [] := (List.append_eq_nil_iff.1 hgr).2
@@ -269,7 +313,8 @@ theorem parse_rinv {E : Str.Env} {r : AReq} {new fut remC : Bytes} {n : Nat} (hn
   rw [hp] at ht
   have hd : deliveredOp r.sp (.parse new (some n)) = st.delivered := by simp [deliveredOp, hp]
   rw [hd] at hdel
-  refine ⟨p', st, remC', hp, hdel, hc.2.2.1.symm, ⟨hs', ht.1, ?_, hout, hc.1, hi.lock, hi.wr⟩, ?_, ?_⟩
+  refine ⟨p', st, remC', hp, hdel, hc.2.2.1.symm,
+    ⟨hs', ht.1, ht.2.2.2.1.trans hi.req, ht.2.2.1.trans hi.capK, ?_, hout, hc.1, hi.lock, hi.wr⟩, ?_, ?_, ?_⟩
   · show 8 ≤ p'.cap
     rw [ht.2.2.1]; exact hi.cap8
   · intro h
@@ -277,11 +322,11 @@ theorem parse_rinv {E : Str.Env} {r : AReq} {new fut remC : Bytes} {n : Nat} (hn
     exact ⟨a, b, c, d⟩
   · intro h1 h2
     constructor
-    · rcases parse_stall hi.sinv.1 hi.par hfree hn hp h1 h2 with h | ⟨v, hv, hlt⟩
-      · exact h
+    · rcases parse_stall hi.sinv.1 hi.par hfree hn hp h1 (by omega) with h | ⟨v, hv, hlt⟩
+      · exact h.short
       · exact (Sim.no_values hs' hv hlt).elim
     · intro hf
-      have hfull : Full E fut := by
+      have hfull : Full K.E fut := by
         unfold Full
         rw [hf]
         simpa using EndMark.len hs'.endm
@@ -289,29 +334,50 @@ theorem parse_rinv {E : Str.Env} {r : AReq} {new fut remC : Bytes} {n : Nat} (hn
       · rw [h1] at h; cases h
       · cases hn'
         omega
+  · intro h1 h2
+    rcases parse_stall hi.sinv.1 hi.par hfree hn hp h1 h2 with h | ⟨v, hv, hlt⟩
+    · exact h
+    · exact (Sim.no_values hs' hv hlt).elim
+
+/-- A drained parser does nothing on a call without new input. -/
+theorem drained_parse {p : Str.Parser} (hd : Drained p) (hcap : p.freeStart ≤ p.cap) (hpar : p.parsed = [])
+    (n : Nat) : p.parse [] (some n) = (p, .ok (initStatus p)) := by
+  rw [parse_eq_loop p [] (some n) hcap (Or.inr hpar) (by simp), Str.Parser.feed_nil, loop]
+  split
+  · rfl
+  · rename_i hne
+    rcases hd with hd | ⟨hpay, hpad, hlen⟩
+    · rw [hd] at hne; simp at hne
+    · have hit : iter p (some n) (initStatus p) = .stop p (initStatus p) := by
+        unfold iter
+        simp only [hpay, Nat.lt_irrefl, if_false, hpad, gt_iff_lt]
+        exact parseHead_short hlen _ _
+      rw [hit]
 
 /-- What `poll_input` returns to a `read` of a quiet stream. -/
-def ReadPost (E : Str.Env) (remC : Bytes) (t : Transport) (r' : AReq) (t' : Transport) : IRes → Prop
-  | .pending => RInv E r' t'.input remC ∧ t'.woken = true ∧ ans t' < ans t
-  | .ready k d => k = d.length ∧ ∃ remC', d ++ remC' = remC ∧ RInv E r' t'.input remC' ∧
-      (0 < k ∨ (remC' = [] ∧ r'.sp.pay = 0 ∧ r'.sp.pad = 0 ∧ r'.sp.raw ++ t'.input = E.tail))
+def ReadPost (K : RCtx) (n : Nat) (remC : Bytes) (t : Transport) (r' : AReq) (t' : Transport) : IRes → Prop
+  | .pending => RInv K r' t'.input remC ∧ t'.woken = true ∧ ans t' < ans t
+  | .ready k d => k = d.length ∧ ∃ remC', d ++ remC' = remC ∧ RInv K r' t'.input remC' ∧
+      (0 < k ∨ (remC' = [] ∧ r'.sp.pay = 0 ∧ r'.sp.pad = 0 ∧ r'.sp.raw ++ t'.input = K.E.tail)) ∧
+      (k = n ∨ Drained r'.sp ∨ (remC' = [] ∧ r'.sp.pay = 0 ∧ r'.sp.pad = 0 ∧ r'.sp.raw ++ t'.input = K.E.tail))
   | .err _ => False
   | .panic _ => False
 
 /-- **The read loop of `poll_input`** on a benign transport and a quiet stream: it returns the next
 piece of the stream content (or `0` exactly at the end mark), or a transient `Pending`; it never
 fails, writes nothing, and leaves the mutex alone. -/
-theorem inLoop_sim {E : Str.Env} {n : Nat} (hn : 0 < n) : ∀ (fuel : Nat) (r : AReq) (new : Bytes)
+theorem inLoop_sim {K : RCtx} {n : Nat} (hn : 0 < n) : ∀ (fuel : Nat) (r : AReq) (new : Bytes)
     (m : MutexSt) (t : Transport) {remC : Bytes} {r' : AReq} {m' : MutexSt} {t' : Transport} {res : IRes},
-    Ben t → RInv E r (new ++ t.input) remC → new.length ≤ r.sp.free → t.input.length + 2 ≤ fuel →
+    Ben t → RInv K r (new ++ t.input) remC → new.length ≤ r.sp.free → t.input.length + 2 ≤ fuel →
     inLoop fuel r new (some n) m t = (r', m', t', res) →
-    TStep t t' ∧ t'.wlog = t.wlog ∧ m' = m ∧ ReadPost E remC t r' t' res := by
+    TStep t t' ∧ t'.wlog = t.wlog ∧ m' = m ∧ ReadPost K n remC t r' t' res ∧
+    (Drained r.sp → new = [] → ∀ k d, res = .ready k d → t'.input.length < t.input.length) := by
   intro fuel
   induction fuel with
   | zero => intro r new m t remC r' m' t' res _ _ _ hf; omega
   | succ k ih =>
     intro r new m t remC r' m' t' res hb hi hfree hf h
-    obtain ⟨p', st, remC', hp, hdel, hcnt, hi', hend, hstall⟩ := parse_rinv hn hi hfree
+    obtain ⟨p', st, remC', hp, hdel, hcnt, hi', hend, hstall, hdrain⟩ := parse_rinv hn hi hfree
     simp only [inLoop, hp] at h
     split at h
     · -- the call delivered something or reached the end mark
@@ -320,17 +386,31 @@ theorem inLoop_sim {E : Str.Env} {n : Nat} (hn : 0 < n) : ∀ (fuel : Nat) (r : 
       have hwr' := hi.wr
       simp only [hwr', Bool.not_true, Bool.false_and, Bool.false_eq_true, if_false] at h
       cases h
-      refine ⟨.refl _, rfl, rfl, hcnt, remC', hdel,
-        ⟨hi'.sim, hi'.sinv, hi'.cap8, hi'.out, hi'.par, hi'.lock, rfl⟩, ?_⟩
-      by_cases hk : 0 < st.stream
-      · exact Or.inl hk
-      · right
-        have hse : st.streamEnd = true := by
-          simp only [Bool.or_eq_true, decide_eq_true_eq] at hc
-          rcases hc with hc | hc
-          · exact hc
-          · exact absurd hc hk
-        exact hend hse
+      refine ⟨.refl _, rfl, rfl, ⟨hcnt, remC', hdel,
+        ⟨hi'.sim, hi'.sinv, hi'.req, hi'.capK, hi'.cap8, hi'.out, hi'.par, hi'.lock, rfl⟩, ?_, ?_⟩, ?_⟩
+      · by_cases hk : 0 < st.stream
+        · exact Or.inl hk
+        · right
+          have hse : st.streamEnd = true := by
+            simp only [Bool.or_eq_true, decide_eq_true_eq] at hc
+            rcases hc with hc | hc
+            · exact hc
+            · exact absurd hc hk
+          exact hend hse
+      · cases hse : st.streamEnd with
+        | true => exact Or.inr (Or.inr (hend hse))
+        | false =>
+          have hle : st.stream ≤ n :=
+            ((C03S.counts_exact hi.sinv.1 (Or.inr hi.par) hfree hp).2.2.1 n rfl).2.2.2
+          by_cases hlt : st.stream < n
+          · exact Or.inr (Or.inl (hdrain hse hlt))
+          · exact Or.inl (by omega)
+      · intro hd hnew kk dd _
+        exfalso
+        subst hnew
+        rw [drained_parse hd hi.sinv.1 hi.par n] at hp
+        cases hp
+        simp [initStatus, hi.sim.strm] at hc
     · -- nothing delivered: compress, (nothing to flush), read more
       rename_i hc
       simp only [Bool.or_eq_true, decide_eq_true_eq, not_or, Bool.not_eq_true, Nat.not_lt,
@@ -339,9 +419,9 @@ theorem inLoop_sim {E : Str.Env} {n : Nat} (hn : 0 < n) : ∀ (fuel : Nat) (r : 
       have hd0 : st.delivered = [] := List.length_eq_zero_iff.1 (by omega)
       rw [hd0, List.nil_append] at hdel
       subst hdel
-      have hi2 : RInv E { r with sp := p'.compress } t.input remC' :=
-        ⟨hi'.sim.of_core rfl rfl rfl hi'.sim.core, SInv_compress hi'.sinv, hi'.cap8, hi'.out, hi'.par,
-          hi'.lock, hi'.wr⟩
+      have hi2 : RInv K { r with sp := p'.compress } t.input remC' :=
+        ⟨hi'.sim.of_core rfl rfl rfl hi'.sim.core, SInv_compress hi'.sinv, hi'.req, hi'.capK, hi'.cap8,
+          hi'.out, hi'.par, hi'.lock, hi'.wr⟩
       have hfreepos : 0 < p'.compress.free := by
         have h8 := hi'.cap8
         have hpar := hi'.par
@@ -354,7 +434,8 @@ theorem inLoop_sim {E : Str.Env} {n : Nat} (hn : 0 < n) : ∀ (fuel : Nat) (r : 
       · rename_i t1 hr
         cases h
         obtain ⟨hinp, hw | hw⟩ := read_pending hb hr
-        · refine ⟨read_tstep hr, by have := read_wlog t p'.compress.free; rwa [hr] at this, rfl, ?_, hw.1, hw.2⟩
+        · refine ⟨read_tstep hr, by have := read_wlog t p'.compress.free; rwa [hr] at this, rfl, ⟨?_, hw.1, hw.2⟩,
+            fun _ _ kk dd hx => by cases hx⟩
           rw [hinp]; exact hi2
         · exact absurd hw.1 hne
       · rename_i t1 e hr
@@ -373,26 +454,32 @@ theorem inLoop_sim {E : Str.Env} {n : Nat} (hn : 0 < n) : ∀ (fuel : Nat) (r : 
           have := congrArg List.length hin
           simp only [List.length_append] at this
           omega
-        obtain ⟨q1, q2, q3, q4⟩ := ih { r with sp := p'.compress } bs m t1 (hb.step hs1)
+        obtain ⟨q1, q2, q3, q4, _⟩ := ih { r with sp := p'.compress } bs m t1 (hb.step hs1)
           (by rw [← hin]; exact hi2) hlen hlen1 h
-        refine ⟨hs1.trans q1, q2.trans hwl, q3, ?_⟩
-        cases res with
-        | pending => exact ⟨q4.1, q4.2.1, by have := hs1.ans_le; have := q4.2.2; omega⟩
-        | ready k d => exact q4
-        | err e => exact q4
-        | panic s => exact q4
+        refine ⟨hs1.trans q1, q2.trans hwl, q3, ?_, fun _ _ kk dd _ => ?_⟩
+        · cases res with
+          | pending => exact ⟨q4.1, q4.2.1, by have := hs1.ans_le; have := q4.2.2; omega⟩
+          | ready k d => exact q4
+          | err e => exact q4
+          | panic s => exact q4
+        · have := q1.tle.input_len
+          have := congrArg List.length hin
+          simp only [List.length_append] at this
+          omega
 
 /-- **`poll_input(Some(n))`** for the `read` of `readAll`. -/
-theorem pollInput_sim {E : Str.Env} {n : Nat} (hn : 0 < n) {r : AReq} {m : MutexSt} {t : Transport}
+theorem pollInput_sim {K : RCtx} {n : Nat} (hn : 0 < n) {r : AReq} {m : MutexSt} {t : Transport}
     {remC : Bytes} {r' : AReq} {m' : MutexSt} {t' : Transport} {res : IRes}
-    (hb : Ben t) (hi : RInv E r t.input remC)
+    (hb : Ben t) (hi : RInv K r t.input remC)
     (h : r.pollInput (some n) m t = (r', m', t', res)) :
-    TStep t t' ∧ t'.wlog = t.wlog ∧ m' = m ∧ ReadPost E remC t r' t' res := by
+    TStep t t' ∧ t'.wlog = t.wlog ∧ m' = m ∧ ReadPost K n remC t r' t' res ∧
+    (Drained r.sp → ∀ k d, res = .ready k d → t'.input.length < t.input.length) := by
   obtain ⟨n', rfl⟩ : ∃ n', n = n' + 1 := ⟨n - 1, by omega⟩
   have hpar := hi.par
   simp only [AReq.pollInput, hpar] at h
   rw [pollOutput_quiet hi.out hi.lock] at h
   simp only at h
-  exact inLoop_sim hn _ r [] m t hb (by simpa using hi) (by simp) (Nat.le_refl _) h
+  obtain ⟨a1, a2, a3, a4, a5⟩ := inLoop_sim hn _ r [] m t hb (by simpa using hi) (by simp) (Nat.le_refl _) h
+  exact ⟨a1, a2, a3, a4, fun hd => a5 hd rfl⟩
 
 end Fcgi.E2E
